@@ -417,3 +417,85 @@ def check_wfn_mo_blocks(ctx, rid):
         ctx.violate(rid, f"WFN orbital sections, {bad}", do, loop, construct=f"wfn MO sections: {bad}"[:180])
     else:
         ctx.ok(rid, "WFN orbital sections: number, occupation, energy and seven primitive coefficients of two orbitals come back in their own slots", f"{do.module.relpath}:{loop.lineno}")
+
+
+def check_fchk_basis_block(ctx, rid):
+    """FCHK basis set: the block of dump_one that writes `Shell types`, `Shell to atom map`, the primitive arrays and the
+    `P(S=P)` coefficients is interpreted on a model basis (an s shell, an SP shell, a pure d, a Cartesian f and a p shell
+    on three centres, different primitive counts) with the field writers captured; the block of load_one that rebuilds
+    the shells is interpreted on the captured fields.  Every shell must come back with its centre, angular momenta,
+    kinds, exponents and coefficient columns."""
+    prog = ctx.prog
+    do = prog.format_op("fchk", "dump_one")
+    lo = prog.format_op("fchk", "load_one")
+    iocls = prog.cls("iodata.iodata.IOData")
+    shcls = prog.cls("iodata.basis.Shell")
+    bcls = prog.cls("iodata.basis.MolecularBasis")
+
+    def sh(ic, ls, ks, ex, co):
+        return Rec(shcls, icenter=ic, angmoms=np.array(ls), kinds=list(ks), exponents=np.array(ex), coeffs=np.array(co))
+
+    shells = [
+        sh(1, [0], ["c"], [5.0, 1.5], [[0.3], [0.7]]),
+        sh(0, [0, 1], ["c", "c"], [9.0, 3.0, 1.0], [[0.1, 0.4], [0.2, 0.5], [0.3, 0.6]]),
+        sh(2, [2], ["p"], [0.8], [[1.0]]),
+        sh(0, [3], ["c"], [0.6, 0.2], [[0.9], [0.15]]),
+        sh(1, [1], ["c"], [2.5], [[1.0]]),
+        sh(2, [4], ["p"], [0.4, 0.1], [[0.6], [0.5]]),
+    ]
+    basis = Rec(bcls, shells=shells, conventions={}, primitive_normalization="L2")
+    f0 = {n: None for n in iocls.fields}
+    f0.update(obasis=basis, atcoords=np.array([[0.0, 0.0, 0.0], [0.0, 0.0, 1.0], [0.0, 1.0, 0.0]]), extra={}, atcharges={}, moments={})
+    wst = [st for st in do.body if isinstance(st, ast.If) and any(isinstance(x, ast.Constant) and x.value == "Shell types" for x in ast.walk(st))]
+    body = lo.body
+    i0 = next((i for i, st in enumerate(body) if isinstance(st, ast.Assign) and isinstance(st.value, ast.Subscript) and isinstance(st.value.slice, ast.Constant) and st.value.slice.value == "Shell types"), None)
+    i1 = next((i for i, st in enumerate(body) if isinstance(st, ast.Assign) and isinstance(st.targets[0], ast.Subscript) and isinstance(st.targets[0].slice, ast.Constant) and st.targets[0].slice.value == "obasis"), None)
+    if len(wst) != 1 or i0 is None or i1 is None or i1 < i0:
+        raise AnalysisError("fchk: the basis-set block of dump_one / load_one was not found")
+    src = body[i0].value.value.id if isinstance(body[i0].value.value, ast.Name) else None
+    dst = body[i1].targets[0].value.id if isinstance(body[i1].targets[0].value, ast.Name) else None
+    if src is None or dst is None:
+        raise AnalysisError("fchk.load_one: the field dictionary / result dictionary of the basis block cannot be identified")
+    got = {}
+
+    def cap(args, kw):
+        got[args[0]] = args[1]
+
+    try:
+        ev = AccessorEval(prog, shcls, limit=40000)
+        ev.module = do.module
+        ev.stubs = {f"iodata.formats.fchk.{nm}": cap for nm in ("_dump_integer_scalars", "_dump_integer_arrays", "_dump_real_arrays", "_dump_real_scalars")}
+        ev._block(wst, {do.posparams[0]: None, do.posparams[1]: Rec(iocls, **f0)})
+        fields = {k: (np.asarray(v) if isinstance(v, (list, tuple, np.ndarray)) else v) for k, v in got.items()}
+        local = {src: fields, dst: {}, "lit": None}
+        ev = AccessorEval(prog, shcls, limit=40000)
+        ev.module = lo.module
+        ev._block(body[i0 : i1 + 1], local)
+    except Raised as exc:
+        ctx.violate(rid, f"FCHK basis block: the fields written for a model basis (s, SP, pure d, Cartesian f, p, pure g) make the reader's block raise {exc.args[0]}", do, wst[0], construct="fchk basis block: raises")
+        return
+    except NotSymbolic as exc:
+        raise AnalysisError(f"FCHK basis blocks are outside the evaluation whitelist: {exc}") from exc
+    ob = local[dst].get("obasis")
+    back = ob.fields.get("shells") if isinstance(ob, Rec) else None
+    bad = None
+    if not isinstance(back, list) or len(back) != len(shells):
+        bad = f"{len(back) if isinstance(back, list) else 'no'} shells come back instead of {len(shells)}"
+    else:
+        for i, (a, b) in enumerate(zip(shells, back)):
+            af, bf = a.fields, b.fields
+            name = f"shell {i + 1} (l = {af['angmoms'].tolist()}, kinds {af['kinds']}, centre {af['icenter']})"
+            if int(bf.get("icenter")) != af["icenter"]:
+                bad = f"{name} comes back on centre {int(bf.get('icenter'))}"
+            elif [int(x) for x in np.asarray(bf.get("angmoms")).ravel()] != af["angmoms"].tolist() or list(bf.get("kinds")) != af["kinds"]:
+                bad = f"{name} comes back with l = {[int(x) for x in np.asarray(bf.get('angmoms')).ravel()]}, kinds {list(bf.get('kinds'))}"
+            elif _num(bf.get("exponents")).shape != af["exponents"].shape or np.abs(_num(bf.get("exponents")) - af["exponents"]).max() > 1e-12:
+                bad = f"{name}: exponents {af['exponents'].tolist()} come back as {_num(bf.get('exponents')).tolist()}"
+            elif _num(bf.get("coeffs")).shape != af["coeffs"].shape or np.abs(_num(bf.get("coeffs")) - af["coeffs"]).max() > 1e-12:
+                bad = f"{name}: contraction coefficients {af['coeffs'].tolist()} come back as {_num(bf.get('coeffs')).tolist()}"
+            if bad:
+                break
+    if bad:
+        ctx.violate(rid, f"FCHK basis block: {bad}", do, wst[0], construct=f"fchk basis block: {bad}"[:170])
+    else:
+        ctx.ok(rid, f"fchk: {len(shells)} model shells (s, SP, pure d, Cartesian f, p, pure g on three centres) written as Shell types / Shell to atom map / primitive arrays / P(S=P) coefficients are rebuilt by the reader's block", f"{do.module.relpath}:{wst[0].lineno}")
